@@ -59,6 +59,7 @@ type VerifC15 struct {
 	DosProt  cache.Store
 	DosPol   cache.Store
 	DosLog   cache.Store
+	ApSig    cache.Store
 	Recorder *record.FakeRecorder
 }
 
@@ -84,6 +85,7 @@ func NewVerifC15(o VerifC15Opts) *VerifC15 {
 		DosProt:  cache.NewStore(cache.DeletionHandlingMetaNamespaceKeyFunc),
 		DosPol:   cache.NewStore(cache.DeletionHandlingMetaNamespaceKeyFunc),
 		DosLog:   cache.NewStore(cache.DeletionHandlingMetaNamespaceKeyFunc),
+		ApSig:    cache.NewStore(cache.DeletionHandlingMetaNamespaceKeyFunc),
 		Recorder: record.NewFakeRecorder(1 << 16),
 	}
 	nsi := &namespacedInformer{
@@ -99,7 +101,7 @@ func NewVerifC15(o VerifC15Opts) *VerifC15 {
 		transportServerLister:        v.TS,
 		appProtectPolicyLister:       v.ApPol,
 		appProtectLogConfLister:      v.ApLog,
-		appProtectUserSigLister:      cache.NewStore(cache.DeletionHandlingMetaNamespaceKeyFunc),
+		appProtectUserSigLister:      v.ApSig,
 		appProtectDosPolicyLister:    v.DosPol,
 		appProtectDosLogConfLister:   v.DosLog,
 		appProtectDosProtectedLister: v.DosProt,
